@@ -188,7 +188,8 @@ def r3(ctx):
     get = [e.node for e in ev[:i] if e.kind == 'stmt' and isinstance(e.node, ast.Assign) and '__Get' in U(e.node.value)]
     ok = len(lw) == 1 and (op, val) == ('+=', '1') and bool(get) and U(get[0].targets[0]) == tgt
     fd = [(j, a) for j, k, a in hc if k == 'FixDown' and j > i]
-    ok = ok and len(fd) == 1 and fd[0][1] == ['self._heap', '%s.index' % tgt, 'self._size']
+    rt = U(sym_resolve(ast.Name(id=tgt, ctx=ast.Load()), sym_env(ev, fd[0][0]))).replace(' ', '') if fd else tgt
+    ok = ok and len(fd) == 1 and fd[0][1] in (['self._heap', '%s.index' % tgt, 'self._size'], ['self._heap', '%s.index' % rt, 'self._size'])
     # inside the lock region
     le = [j for j, e in enumerate(ev) if e.kind == 'with_enter' and '_heap_lock' in U(e.node.context_expr)]
     lx = [j for j, e in enumerate(ev) if e.kind == 'with_exit' and '_heap_lock' in U(e.node.context_expr)]
